@@ -152,6 +152,34 @@ impl<'a> Printer<'a> {
         }
     }
 
+    /// binding strength of the binary operators (loosest first), as the documentation lists them
+    fn bin_level(op: BinOp) -> u8 {
+        match op {
+            BinOp::Or => 1,
+            BinOp::And => 2,
+            BinOp::Eq | BinOp::Ne | BinOp::Lt | BinOp::Le | BinOp::Gt | BinOp::Ge => 3,
+            BinOp::Add | BinOp::Sub => 4,
+            BinOp::Mul | BinOp::Div => 5,
+        }
+    }
+
+    /// Operand of a binary operator. The canonical form parenthesises every nested operator; with the
+    /// layout variation on, parentheses that precedence and left-associativity make redundant are
+    /// dropped for about half of the eligible operands (`(a * b) + c` -> `a * b + c`,
+    /// `(a - b) - c` -> `a - b - c`), so that "redundant parentheses change nothing" is exercised.
+    fn bin_operand(&self, parent: BinOp, e: &Expr, left: bool, lvl: usize) -> String {
+        if let Expr::Bin(child, ..) = e {
+            let (pl, cl) = (Self::bin_level(parent), Self::bin_level(*child));
+            let redundant = cl > pl || (cl == pl && left && cl != 3);
+            if redundant && self.lay(hash64(format!("{:?}{:?}{}", parent, child, left).as_bytes()) ^ 0x77aa ^ lvl as u64, 2) == 1 {
+                let inner = self.expr(e, lvl);
+                // the child may itself have been wrapped by the redundant-parentheses variation: fine either way
+                return inner;
+            }
+        }
+        self.operand(e, lvl)
+    }
+
     fn maybe_redundant_parens(&self, s: String, key: u64) -> String {
         if self.lay(key ^ 0x5151, 6) == 1 {
             format!("({})", s)
@@ -255,7 +283,7 @@ impl<'a> Printer<'a> {
             Expr::Var(b) => self.var(*b),
             Expr::SelfRef(_) => "self".into(),
             Expr::Bin(op, a, b) => {
-                let s = format!("{} {} {}", self.operand(a, lvl), op.text(), self.operand(b, lvl));
+                let s = format!("{} {} {}", self.bin_operand(*op, a, true, lvl), op.text(), self.bin_operand(*op, b, false, lvl));
                 self.maybe_redundant_parens(s, hash64(format!("{:?}", op).as_bytes()) ^ lvl as u64)
             }
             Expr::AssertEq(a, b) => format!("{} <=> {}", self.operand(a, lvl), self.operand(b, lvl)),
